@@ -51,7 +51,7 @@ ASSUMPTIONS = ["recursion limit, OS path limits and memory are runtime behaviour
 LEVEL_TEXT = ("Proof (Coq) over tables regenerated from the source on every run: every call site of a raising callee in the "
               "package is out of scope, whitelisted with a justification, or checked - each class of "
               "raises(callee) is caught by an enclosing handler or declared to escape to call sites that are themselves checked "
-              "(C01_sites_covered_partial with C01_sites_covered_refuted for the open sites, C01_site_check_sound, C01_raise_statements_declared, C01_tables_consistent); component totality in small models: max() in "
+              "(C01_sites_covered, C01_site_check_sound, C01_raise_statements_declared, C01_tables_consistent); component totality in small models: max() in "
               "update_section_level_state is never over an empty set, and {include}/substitution re-entrancy is bounded by the "
               "number of distinct keys (C01_core_total, with the two refutations of the unguarded variants). Tie: the "
               "regenerated tables plus fault-injection correspondence against the implementation.")
